@@ -23,7 +23,7 @@ define i32 @f(i32 <D:p0>, i32 <D:p1>) {
 \t\tto label <U:b2> unwind label <U:b3>
 
 <L:b2>
-\t<D:v2> = phi i32 [ <U:t0>, <U:b1> ], [ <U:v1>, <U:b0> ]
+\t<D:v2> = phi i32 [ <U:t0>, <U:b1> ], [ <U:v1>, <U:b1> ], [ <U:v0>, <U:b0> ]
 \t<D:t1> = callbr i32 asm "", "=r,i"(i8* blockaddress(@f, <U:b4>))
 \t\tto label <U:b3> [label <U:b4>]
 
@@ -38,6 +38,8 @@ define i32 @f(i32 <D:p0>, i32 <D:p1>) {
 <L:b5>
 \tret i32 <U:v4>
 }
+
+uselistorder_bb @f, <U:b3>, { 1, 0 }
 """
 
 import re
@@ -79,7 +81,8 @@ def render(names, use_override=None, def_override=None):
         return "%" + t
     text = TOK.sub(sub, TEMPLATE)
     ldefs = [dids[d] for d in DEFS]
-    sk = "F|g|||;F|f|G=g G=f|%s|%s" % (" ".join(ldefs), " ".join(lrefs))
+    # the last use site is the block operand of the module-level `uselistorder_bb` (resolved by findBlock, like blockaddress targets)
+    sk = "F|g|||;F|f|G=g G=f|%s|%s;U|#|G=f|||f:%s" % (" ".join(ldefs), " ".join(lrefs[:-1]), lrefs[-1])
     return text, sk
 
 
@@ -93,6 +96,11 @@ def schemes(rng, n_random):
                 continue
             ids = numbering({k: "x"})
             out.append(("name-%s-is-id-of-%s" % (k, j), {k: '"%s"' % ids[j]}))
+    # names that READ as the same number (ir.LocalIdent.Name() shows all of them as "7", resp. "0") but are different names
+    fam = ['"7"', '"07"', '"007"', '"+7"', '"0"', '"00"', "-0", '"0007"', '"+07"', '"+0"', '"000"', "-7", '"00007"', '"+007"', '"0000"']
+    for k in range(0, len(fam), 3):
+        rot = fam[k:] + fam[:k]
+        out.append(("numeric-lookalikes-%d" % k, {d: rot[i] for i, d in enumerate(DEFS)}))
     for _ in range(n_random):
         names = {}
         for d in DEFS:
@@ -132,6 +140,13 @@ def cases(rng, n_random=20):
         for i, s in enumerate(USES):
             if s == k:
                 yield ("use-of-quoted-as-id:%s:%d" % (k, i), "error", *render(names, {i: "77"}))
+    # a use spelled with ANOTHER spelling of the same number, which no definition carries (`%"000007"` where `%"7"`, `%"07"`, ... exist)
+    fam = ['"7"', '"07"', '"007"', '"+7"', '"0"', '"00"', "-0", '"0007"', '"+07"', '"+0"', '"000"', "-7", '"00007"', '"+007"', '"0000"']
+    lk = {d: fam[i] for i, d in enumerate(DEFS)}
+    for i, s_ in enumerate(USES):
+        fresh = '"000007"' if "7" in lk[s_] else '"00000"'
+        yield ("use-of-lookalike-number:%d" % i, "error", *render(lk, {i: fresh}))
+        yield ("use-of-lookalike-number-id:%d" % i, "error", *render(lk, {i: "7" if "7" in lk[s_] else "0"}))
     # duplicated definitions: every ordered pair of definition sites, named (b takes a's name) ...
     named = {d: d for d in DEFS}
     for a in DEFS:
